@@ -27,9 +27,9 @@ public:
 
     struct Info {
         std::list<const char*> languages;
-        const char *languageCode;
-        const char *country;
-        const char *countryCode;
+        const char *languageCode {nullptr};
+        const char *country {nullptr};
+        const char *countryCode {nullptr};
         const char *error {nullptr};
     };
 
